@@ -350,7 +350,8 @@ def lookupAll (t : Trie) (key : List Nat) (st : Strategy) : List Phrase :=
   | some th => collect t.index t.data th []
 
 /-- "collect result from all threads" with the cut-off of `lookup_first_n_phrases`: after a leaf has
-    been appended, `if result.len() > first { break }` — whole leaves, no truncation -/
+    been appended, `if result.len() > first { break }` — the loop itself holds whole leaves; the
+    caller truncates (`result.truncate(first)` after the loop, `lookupFirstN`) -/
 def collectN (dict data : Bytes) (first : Nat) : List Rec → List Phrase → List Phrase
   | [], acc => acc
   | v :: vs, acc =>
@@ -363,14 +364,15 @@ def collectN (dict data : Bytes) (first : Nat) : List Rec → List Phrase → Li
     if acc'.length > first then acc' else collectN dict data first vs acc'
 
 /-- `lookup_first_n_phrases` (the trait's required method; `lookupAll` is the case `first = usize::MAX`,
-    where the cut-off cannot fire) -/
+    where neither the cut-off nor the truncation can fire): the loop `collectN`, then
+    `result.truncate(first)` (the early `bail_if_oob!` returns are empty vectors) -/
 def lookupFirstN (t : Trie) (key : List Nat) (first : Nat) (st : Strategy) : List Phrase :=
   if oob 0 8 t.index.length then [] else
   let root := viewAt t.index 0
   if cbOf root = ceOf root then [] else
   match walk t.index st key [root] with
   | none => []
-  | some th => collectN t.index t.data first th []
+  | some th => (collectN t.index t.data first th []).take first
 
 /-- `lookup_first_phrase` (provided method): `lookup_first_n_phrases(…, 1, …).into_iter().next()` -/
 def lookupFirst (t : Trie) (key : List Nat) (st : Strategy) : Option Phrase :=
